@@ -164,6 +164,7 @@ type accessRow struct {
 	Kind     string   `json:"kind"` // R | W
 	Atomic   bool     `json:"atomic"`
 	Prepub   bool     `json:"prepub"`
+	Variant  string   `json:"variant"` // struct embedding the accessed object ("" = unknown)
 	Held     [][2]int `json:"held"` // must-held (class, mode)
 	HeldStr  string   `json:"held_names"`
 	Sites    []string `json:"sites"`
@@ -591,6 +592,7 @@ func body(fn *ssa.Function) *ssa.Function {
 type actx struct {
 	may, must hset
 	fresh     uint32
+	variant   string // struct that embeds the receiver object ("" = unknown)
 	chain     []string
 }
 
@@ -599,7 +601,7 @@ func (a *analyzer) analyze(fn *ssa.Function, c actx) {
 	if fn == nil || !(a.inScope(fn) || fn.Pkg == nil && fn.Synthetic != "") {
 		return
 	}
-	key := fmt.Sprintf("%p|%s|%s|%d", fn, c.may.key(), c.must.key(), c.fresh)
+	key := fmt.Sprintf("%p|%s|%s|%d|%s", fn, c.may.key(), c.must.key(), c.fresh, c.variant)
 	if a.visited[key] {
 		return
 	}
@@ -747,7 +749,13 @@ func (a *analyzer) block(fn *ssa.Function, b *ssa.BasicBlock, st *lstate, c actx
 			}
 			switch y := x.Addr.(type) {
 			case *ssa.FieldAddr:
-				a.access(fn, y, y.X, "W", false, st, c, x.Pos(), "")
+				if tracked := a.access(fn, y, y.X, "W", false, st, c, x.Pos(), ""); tracked {
+					continue
+				}
+				if fa := loadedField(y.X); fa != nil {
+					// r.address.Device = ...: a store into the object a tracked pointer field refers to
+					a.access(fn, fa, fa.X, "W", false, st, c, x.Pos(), "store through the pointer")
+				}
 			case *ssa.Global:
 				a.globalAccess(fn, y, "W", st, c, x.Pos())
 			case *ssa.IndexAddr:
@@ -910,6 +918,19 @@ func (a *analyzer) call(fn *ssa.Function, ins ssa.Instruction, com *ssa.CallComm
 	}
 }
 
+func concreteNamed(v ssa.Value) *types.Named {
+	switch x := v.(type) {
+	case *ssa.MakeInterface:
+		return concreteNamed(x.X)
+	case *ssa.ChangeInterface:
+		return concreteNamed(x.X)
+	}
+	if _, ok := v.Type().Underlying().(*types.Interface); ok {
+		return nil
+	}
+	return namedOf(v.Type())
+}
+
 func lineOf(p string) string {
 	if i := strings.LastIndex(p, ":"); i >= 0 {
 		return p[i+1:]
@@ -929,10 +950,18 @@ func (a *analyzer) follow(fn, t *ssa.Function, com *ssa.CallCommon, may, must hs
 	}
 	for i, arg := range args {
 		if i < 32 && i < len(bt.Params) && a.isFresh(arg, fn, c.fresh, 0) {
-			fresh |= 1 << uint(i)
+			// only when the callee's parameter has the concrete type of the unpublished object
+			// (a class-hierarchy candidate of another type is a spurious path anyway)
+			if cn := concreteNamed(arg); cn != nil && cn == namedOf(bt.Params[i].Type()) {
+				fresh |= 1 << uint(i)
+			}
 		}
 	}
-	nc := actx{may: may.clone(), must: must.clone(), fresh: fresh, chain: append(append([]string{}, c.chain...), a.shortName(fn)+":"+lineOf(a.pos(p)))}
+	variant := ""
+	if len(args) > 0 && bt.Signature != nil && bt.Signature.Recv() != nil {
+		variant = a.variantOf(args[0], fn, c)
+	}
+	nc := actx{may: may.clone(), must: must.clone(), fresh: fresh, variant: variant, chain: append(append([]string{}, c.chain...), a.shortName(fn)+":"+lineOf(a.pos(p)))}
 	a.analyze(t, nc)
 }
 
@@ -980,20 +1009,47 @@ func (a *analyzer) addEdge(from, to int, witness string) {
 	a.edges[k] = &lockEdge{From: from, To: to, Witness: witness}
 }
 
-func (a *analyzer) access(fn *ssa.Function, fa *ssa.FieldAddr, base ssa.Value, kind string, atomic bool, st *lstate, c actx, p token.Pos, note string) {
+func (a *analyzer) access(fn *ssa.Function, fa *ssa.FieldAddr, base ssa.Value, kind string, atomic bool, st *lstate, c actx, p token.Pos, note string) bool {
 	k, fv := a.fieldKey(fa)
 	if fv == nil {
-		return
+		return false
 	}
 	if _, isClass := a.classBy[k]; isClass {
-		return
+		return true
 	}
 	fid, ok := a.fieldBy[k]
 	if !ok {
-		return
+		return false
 	}
 	prepub := a.isFresh(base, fn, c.fresh, 0) || fn.Name() == "init"
-	a.addRow(fn, k, fid, kind, atomic, prepub, st, c, p, note)
+	a.addRow(fn, k, fid, kind, atomic, prepub, a.variantOf(base, fn, c), st, c, p, note)
+	return true
+}
+
+// variantOf: the struct that embeds the accessed object, when the base pointer was loaded
+// from an embedded field (r.Device.address with r *DeviceRemote -> "DeviceRemote") or is the
+// receiver of a method that was called on such a value
+func (a *analyzer) variantOf(base ssa.Value, fn *ssa.Function, c actx) string {
+	if fa := loadedField(base); fa != nil {
+		if _, f := a.fieldKey(fa); f != nil && f.Embedded() {
+			if n := namedOf(fa.X.Type()); n != nil {
+				return a.typeName(n)
+			}
+		}
+		return ""
+	}
+	if fa, ok := base.(*ssa.FieldAddr); ok { // embedded by value
+		if _, f := a.fieldKey(fa); f != nil && f.Embedded() {
+			if n := namedOf(fa.X.Type()); n != nil {
+				return a.typeName(n)
+			}
+		}
+		return ""
+	}
+	if p, ok := base.(*ssa.Parameter); ok && len(fn.Params) > 0 && fn.Params[0] == p {
+		return c.variant
+	}
+	return ""
 }
 
 func (a *analyzer) globalAccess(fn *ssa.Function, g *ssa.Global, kind string, st *lstate, c actx, p token.Pos) {
@@ -1003,12 +1059,12 @@ func (a *analyzer) globalAccess(fn *ssa.Function, g *ssa.Global, kind string, st
 		return
 	}
 	prepub := fn.Name() == "init" || strings.HasPrefix(fn.Name(), "init#")
-	a.addRow(fn, k, fid, kind, false, prepub, st, c, p, "")
+	a.addRow(fn, k, fid, kind, false, prepub, "", st, c, p, "")
 }
 
-func (a *analyzer) addRow(fn *ssa.Function, field string, fid int, kind string, atomic, prepub bool, st *lstate, c actx, p token.Pos, note string) {
+func (a *analyzer) addRow(fn *ssa.Function, field string, fid int, kind string, atomic, prepub bool, variant string, st *lstate, c actx, p token.Pos, note string) {
 	acc := a.shortName(fn)
-	key := fmt.Sprintf("%s|%s|%s|%v|%v|%s", field, acc, kind, atomic, prepub, st.must.key())
+	key := fmt.Sprintf("%s|%s|%s|%v|%v|%s|%s", field, acc, kind, atomic, prepub, variant, st.must.key())
 	site := a.pos(p)
 	if r, ok := a.rows[key]; ok {
 		for _, s := range r.Sites {
@@ -1020,7 +1076,7 @@ func (a *analyzer) addRow(fn *ssa.Function, field string, fid int, kind string, 
 		sort.Strings(r.Sites)
 		return
 	}
-	r := &accessRow{Field: field, FieldID: fid, Accessor: acc, FuncID: a.funcID(acc), Kind: kind, Atomic: atomic, Prepub: prepub,
+	r := &accessRow{Field: field, FieldID: fid, Accessor: acc, FuncID: a.funcID(acc), Kind: kind, Atomic: atomic, Prepub: prepub, Variant: variant,
 		HeldStr: a.heldNames(st.must), Sites: []string{site}, Witness: a.chainStr(c, fn, p), Note: note}
 	ks := make([]int, 0, len(st.must))
 	for k := range st.must {
@@ -1255,6 +1311,9 @@ func (a *analyzer) emit() {
 		if rows[i].Kind != rows[j].Kind {
 			return rows[i].Kind < rows[j].Kind
 		}
+		if rows[i].Variant != rows[j].Variant {
+			return rows[i].Variant < rows[j].Variant
+		}
 		return rows[i].HeldStr < rows[j].HeldStr
 	})
 	for i, r := range rows {
@@ -1370,8 +1429,8 @@ func (a *analyzer) emit() {
 	}
 	b.WriteString("].\n\n")
 
-	b.WriteString("(* access rows: (row id, field id, accessor id, write?, atomic?, before publication?, must-held [(class, write mode?)]) *)\n")
-	b.WriteString("Definition accesses : list (N * N * N * bool * bool * bool * list (N * bool)) := [\n")
+	b.WriteString("(* access rows: (row id, field id, accessor id, write?, atomic?, before publication?,\n   id of the struct embedding the accessed object (0 = unknown), must-held [(class, write mode?)]) *)\n")
+	b.WriteString("Definition accesses : list (N * N * N * bool * bool * bool * N * list (N * bool)) := [\n")
 	for i, r := range rows {
 		sep := ";"
 		if i == len(rows)-1 {
@@ -1385,8 +1444,12 @@ func (a *analyzer) emit() {
 		if r.Note != "" {
 			note = " [" + r.Note + "]"
 		}
-		fmt.Fprintf(&b, "  (%d, %d, %d, %v, %v, %v, [%s])%s (* %s %s by %s at %s under %s%s *)\n", r.ID, r.FieldID, r.FuncID, r.Kind == "W", r.Atomic, r.Prepub,
-			strings.Join(hs, "; "), sep, r.Field, map[string]string{"R": "read", "W": "written"}[r.Kind], r.Accessor, strings.Join(r.Sites, ","), r.HeldStr, coqCmt(note))
+		via := ""
+		if r.Variant != "" {
+			via = " via " + r.Variant
+		}
+		fmt.Fprintf(&b, "  (%d, %d, %d, %v, %v, %v, %d, [%s])%s (* %s %s by %s%s at %s under %s%s *)\n", r.ID, r.FieldID, r.FuncID, r.Kind == "W", r.Atomic, r.Prepub, a.structs[r.Variant],
+			strings.Join(hs, "; "), sep, r.Field, map[string]string{"R": "read", "W": "written"}[r.Kind], r.Accessor, via, strings.Join(r.Sites, ","), r.HeldStr, coqCmt(note))
 	}
 	b.WriteString("].\n\n")
 
